@@ -307,3 +307,84 @@ SILENT += [
     ("refactor-window-generation-into-helper", BT, _R_SYMHELPER, None, _SIM_IDS),
     ("refactor-route-execution-into-helper", BT, _R_ROUTESHELPER, None, _SIM_IDS),
 ]
+
+
+# ---- second batch: local variables renamed inside one function (the rules must follow values, not names)
+def _rename_in_function(fname, mapping):
+    def f(src):
+        import ast as _ast
+        import re as _re
+        tree = _ast.parse(src)
+        target = next((n for n in _ast.walk(tree) if isinstance(n, (_ast.FunctionDef, _ast.AsyncFunctionDef)) and n.name == fname), None)
+        if target is None:
+            return None
+        lines = src.split("\n")
+        a, b = target.lineno - 1, target.end_lineno
+        body = "\n".join(lines[a:b])
+        for old, new in mapping.items():
+            if not _re.search(rf"\b{old}\b", body):
+                return None
+            body = _re.sub(rf"(?<![\.\w'\"]){old}\b(?!['\"])", new, body)
+        return "\n".join(lines[:a]) + "\n" + body + "\n" + "\n".join(lines[b:])
+    return f
+
+
+SILENT += [
+    ("refactor-skip-simulator-locals", BT, _rename_in_function("_skip_simulator", {"candles_step": "chunk", "length": "n_minutes", "step": "this_chunk"}), None, ["C01", "C02", "C07", "C12", "C16"]),
+    ("refactor-step-simulator-length", BT, _rename_in_function("_step_simulator", {"length": "n_minutes"}), None, ["C01", "C02", "C07", "C12", "C16"]),
+    ("refactor-partial-candle-locals", BT, _rename_in_function("_update_all_routes_a_partial_candle", {"number_of_needed_candles": "needed"}), None, ["C01", "C07"]),
+    ("refactor-get-candles-locals", "jesse/store/state_candles.py", _rename_in_function("get_candles", {"short_count": "n_1m"}), None, ["C01", "C07", "C20"]),
+    ("refactor-matcher-locals", BT, _rename_in_function("_simulate_price_change_effect", {"executed_order": "filled", "current_temp_candle": "rest"}), None, ["C02", "C07", "C08", "C09", "C12"]),
+    ("refactor-fast-matcher-locals", BT, _rename_in_function("_simulate_price_change_effect_multiple_candles", {"is_executed_order": "filled", "current_temp_candle": "rest", "executing_orders": "candidates"}), None, ["C02", "C07", "C08", "C09", "C12"]),
+    ("refactor-liquidation-locals", BT, _rename_in_function("_check_for_liquidations", {"closing_order_side": "side", "order": "liq"}), None, ["C07", "C09"]),
+    ("refactor-fill-absent-locals", "jesse/modes/import_candles_mode/__init__.py", _rename_in_function("_fill_absent_candles", {"loop_length": "n_loops"}), None, ["C20"]),
+    ("refactor-dna-locals", "jesse/helpers.py", _rename_in_function("dna_to_hp", {"decoded_gene": "value", "hp": "out"}), None, ["C19"]),
+    ("refactor-isolated-backtest-locals", "jesse/research/backtest.py", _rename_in_function("_isolated_backtest", {"trading_candles_dict": "copied", "backtest_result": "outcome"}), None, ["C11", "C20"]),
+    ("refactor-position-locals", "jesse/models/Position.py", _rename_in_function("_on_executed_order", {"qty": "amount", "price": "px"}), None, ["C03", "C04", "C06", "C09"]),
+]
+
+
+# ---- third batch: helper extraction around trace rules
+SILENT += [
+    ("refactor-liquidation-execution-into-helper", BT, [("""        # the hooks that this execution triggers read the other timeframes' candles too,
+        # so (as for any other execution) update them up to the last stored 1m candle
+        _update_all_routes_a_partial_candle(exchange, symbol, candle if last_1m_candle is None else last_1m_candle)
+
+        order.execute()
+""", """        _execute_liquidation(order, exchange, symbol, candle if last_1m_candle is None else last_1m_candle)
+"""), ("def _generate_outputs(", """def _execute_liquidation(order, exchange: str, symbol: str, last_candle: np.ndarray) -> None:
+    _update_all_routes_a_partial_candle(exchange, symbol, last_candle)
+
+    order.execute()
+
+
+def _generate_outputs(""")], None, ["C07", "C09", "C01"]),
+    ("refactor-fast-fill-into-helper", BT, [("""                            store.app.time = storable_temp_candle[0] + 60_000
+                            order.execute()
+                            executing_orders = _get_executing_orders(
+                                exchange, symbol, real_candle
+                            )""", """                            _fill_at(order, storable_temp_candle)
+                            executing_orders = _get_executing_orders(
+                                exchange, symbol, real_candle
+                            )"""), ("def _update_all_routes_a_partial_candle(", """def _fill_at(order, storable_temp_candle: np.ndarray) -> None:
+    store.app.time = storable_temp_candle[0] + 60_000
+    order.execute()
+
+
+def _update_all_routes_a_partial_candle(""")], None, ["C02", "C05", "C07", "C12", "C01"]),
+    ("refactor-session-cleanup-into-helper", "jesse/research/backtest.py", [("""    store.reset()
+
+    return result
+
+
+def _format_config(config):""", """    _forget_session()
+
+    return result
+
+
+def _forget_session() -> None:
+    store.reset()
+
+
+def _format_config(config):""")], None, ["C11", "C20"]),
+]
